@@ -144,7 +144,8 @@ func NewSnapshotEngine(options ...func(engine *Engine)) *Engine {
 			}()
 			for {
 				<-ticker.C
-				if engine.changeCount.Load() == engine.snapshotThreshold {
+				// The threshold may be passed between two ticks, so it counts as reached from then on.
+				if engine.changeCount.Load() >= engine.snapshotThreshold {
 					if err := engine.TakeSnapshot(); err != nil {
 						log.Println(err)
 					}
